@@ -287,6 +287,7 @@ class SArray:
         from . import loops
         c = cur()
         levels = loops.active_levels()
+        fam_guards = list(getattr(c, 'fam_guards', []))       # conditions on the generic index under which this store executes
         old_fn = self.fn
         nd = len(self.shape)
         i0 = []
@@ -319,7 +320,7 @@ class SArray:
             ws = loops.witness_for(levels, idx)
             pairs = loops.family_pairs(levels, ws)
             inr, _ = region(idx, pairs)
-            cond = And(loops.family_in_range(levels, ws), inr)
+            cond = And(loops.family_in_range(levels, ws), inr, *[mk_bool(loops.subst_z(gz, pairs)) for gz in fam_guards])
             if cond is False:
                 return old_fn(idx)
             if cond is not True and c.prove(cond):
@@ -559,5 +560,11 @@ def array_compare(op, a, b):
             if op == '!=':
                 return x != y
             raise Unsupported('ordering of tokens')
+        # numpy compares booleans as 0 / 1
+        from .values import SBool as _SB
+        if isinstance(x, (_SB, bool)) and not isinstance(y, (_SB, bool)):
+            x = Ite(x, 1, 0) if isinstance(x, _SB) else int(x)
+        if isinstance(y, (_SB, bool)) and not isinstance(x, (_SB, bool)):
+            y = Ite(y, 1, 0) if isinstance(y, _SB) else int(y)
         return ops_cmp(op, x, y)
     return SArray(ref.shape, fn, 'bool')
